@@ -110,6 +110,7 @@ type Exec struct {
 	pcSet     map[int]bool
 	pcDirty   bool
 	inOnLock  bool
+	pools     map[string][]Value // sync.Pool contents
 	lastModel map[string]uint64 // a model of the current path condition, if known
 	evalMemo  map[int]uint64
 }
@@ -162,6 +163,7 @@ func (ex *Exec) resetPath(prefix []int) {
 	ex.steps = 0
 	ex.mutexes = map[*Object]map[string]int{}
 	ex.ghost = map[string]Value{}
+	ex.pools = map[string][]Value{}
 	ex.ghostT = map[string]types.Type{}
 	ex.callLog = nil
 	ex.curFrame = nil
